@@ -5,6 +5,9 @@ Local Open Scope N_scope.
 Inductive c03case :=
 (* per endpoint kind: (number of reads compared, number that differ after the restart) *)
 | CGen (kinds : list (nat * nat))
+(* the same for GET branch-versions in a repo that contains a merge node (branch "" nodes make
+   getAncestryByBranch depend on Go's map iteration order, also without a restart) *)
+| CGenMerge (kinds : list (nat * nat))
 (* repo metadata: operations so far, canonical repos before and after, raw JSON (timestamps and
    mutation ids erased) identical? *)
 | CRepos (segs : list (list pop)) (before after : list snap_repo) (json_same : bool)
@@ -59,6 +62,7 @@ Definition has_merge (ops : list pop) : bool :=
 Definition model_ok (c : c03case) : bool :=
   match c with
   | CGen _ => true
+  | CGenMerge _ => true
   | CRepos segs before after _ =>
     let '(m, img) := run_segs (fst start_state) (snd start_state) segs in
     repos_eqb (canon m) before &&
@@ -86,6 +90,7 @@ Definition model_ok (c : c03case) : bool :=
 Definition spec_class (c : c03case) : nat :=
   match c with
   | CGen kinds => if forallb (fun k : nat * nat => Nat.eqb (snd k) 0) kinds then 0%nat else 1%nat
+  | CGenMerge kinds => if forallb (fun k : nat * nat => Nat.eqb (snd k) 0) kinds then 0%nat else 5%nat
   | CRepos _ before after json_same => if repos_eqb before after && json_same then 0%nat else 2%nat
   | CHeads _ heads =>
     if forallb (fun h : N * option N * option N => let '(_, b, a) := h in optN_eqb b a) heads then 0%nat
